@@ -479,6 +479,59 @@ static void scenario_atomic(uint64_t cid, vh::Rng r) {
 }
 
 // ---------------------------------------------------------------------------------------------------------------
+// Parent counter protocol of the task graph: N finishing parents decrement the child's counter; the values they get
+// back must be exactly N-1..0, i.e. exactly one of them sees zero and releases the child (exactly-once release).
+static void scenario_countdown(uint64_t cid, vh::Rng r) {
+  const int T = 2 + r.below(3);
+  const uint64_t rounds = 5000 + r.below(10000);
+  Task child;
+  std::atomic< int > go(0), done(0);
+  std::atomic< uint64_t > zero_seen(0), bad_rounds(0);
+  std::vector< std::atomic< int > > got(T);
+  std::vector< std::thread > th;
+  std::atomic< uint64_t > round(0);
+  for (int t = 0; t < T; ++t)
+    th.emplace_back([&, t]() {
+      for (uint64_t k = 1; k <= rounds; ++k) {
+        uint64_t w = 0;
+        while (round.load() < k) {
+          if ((++w & 255) == 0) std::this_thread::yield();
+        }
+        got[t].store((int)child.decrement_number_of_unfinished_parents());
+        done.fetch_add(1);
+      }
+    });
+  for (uint64_t k = 1; k <= rounds; ++k) {
+    child.set_number_of_unfinished_parents((uint_fast8_t)T);
+    done.store(0);
+    round.store(k);
+    uint64_t w = 0;
+    while (done.load() < T) {
+      if ((++w & 255) == 0) std::this_thread::yield();
+    }
+    std::vector< int > v;
+    int zeros = 0;
+    for (int t = 0; t < T; ++t) {
+      v.push_back(got[t].load());
+      zeros += (v.back() == 0);
+    }
+    std::sort(v.begin(), v.end());
+    bool perm = true;
+    for (int t = 0; t < T; ++t) perm = perm && v[t] == t;
+    if (!perm) {
+      if (bad_rounds.fetch_add(1) < 3)
+        TVIOL("atomic/parent-countdown", cid, "%d parents decremented a counter of %d: %d of them saw zero (the child would be released %d times); returned values not a permutation of %d..0",
+              T, T, zeros, zeros, T - 1);
+    }
+    zero_seen.fetch_add(zeros);
+  }
+  for (auto &x : th) x.join();
+  stat("countdown_histories");
+  stat("countdown_rounds", rounds);
+  (void)go;
+}
+
+// ---------------------------------------------------------------------------------------------------------------
 static void scenario_memory(uint64_t cid, vh::Rng r) {
   const int T = 1 + r.below(8);
   const size_t nbuf = 6 * T + 4;
@@ -558,7 +611,10 @@ int main(int argc, char **argv) {
       break;
     case 1: scenario_queue(h, r); break;
     case 2: scenario_lock(h, r); break;
-    case 3: scenario_atomic(h, r); break;
+    case 3:
+      if (r.chance(0.5)) scenario_atomic(h, r);
+      else scenario_countdown(h, r);
+      break;
     default: scenario_memory(h, r); break;
     }
     if (h < 2) std::printf("SAMPLE history=%" PRIu64 " kind=%s\n", h, names[k]);
